@@ -141,6 +141,12 @@ class Cx:
         self._ord[k] = n + 1
         return base if n == 0 else "%s#%d" % (base, n)
 
+    def abstain(self, text):
+        """A form-specific clause whose form is absent from the code (not an anchor: an inner shape of a private
+        algorithm) decides nothing and waives its floor; the instance is recorded in the evidence as such. Use only
+        where another, form-independent obligation of the same property still decides (named in `text`)."""
+        self.insts.append(Inst(self.cur, "abstains", True, text, None, {"abstained": True}))
+
     def ok(self, key, text, site=None, **detail):
         self.insts.append(Inst(self.cur, key, True, text, self.where(site) if site else None, detail))
 
@@ -201,7 +207,8 @@ class Cx:
                                        "the code at this obligation's sites has a shape the rule cannot interpret (%s: %s at %s); the obligation is undecided and reported" % (type(e).__name__, str(e)[:120], where)))
             mine = self.insts[n0:]
             nok = sum(1 for i in mine if i.ok)
-            if nok < ob["floor"] and all(i.ok for i in mine):
+            abstained = any(i.key == "abstains" for i in mine)
+            if nok < ob["floor"] and all(i.ok for i in mine) and not abstained:
                 self.insts.append(Inst(self.cur, "floor", False,
                                        "only %d conforming instance(s) found, floor is %d: the rule no longer matches the sites the protocol cannot work without" % (nok, ob["floor"])))
             results[ob["name"]] = self.insts[n0:]
